@@ -150,9 +150,9 @@ def parse_mc(outp):
 
 
 def model_check(wd, name, module, constants, invariants, constraints=(), workers=8, timeout=600, view=None,
-                properties=()):
+                properties=(), spec="Spec"):
     cfg = os.path.join(wd, name + ".cfg")
-    write_cfg(cfg, constants=constants, invariants=invariants, constraints=constraints, view=view,
+    write_cfg(cfg, spec=spec, constants=constants, invariants=invariants, constraints=constraints, view=view,
               properties=properties)
     rc, outp, wall = run_tlc(wd, module, cfg, workers=workers, timeout=timeout, out=name + ".out")
     r = parse_mc(outp)
